@@ -64,6 +64,10 @@ def run(tier):
         cid = "q%d" % i
         sink = os.path.join(wd, cid + ".out")
         lines = ["case %s 30" % cid, "ctx 0", "open 0 %s r" % paths[fname], "sink 0 %s" % sink, "init_read 0 0"]
+        if i % 5 == 3:
+            # from here on every read(2) on the input returns at most a few bytes (what a pipe, a network file system or a
+            # signal does): each request must still return that chunk's exact data
+            lines.append("shim_cap 0 %d" % (7, 60, 300, 5000, 33000)[(i // 5) % 5])
         for (kind, k) in seq:
             lines.append("%s 0 %d -1" % ("chunk_data" if kind == "d" else "chunk_comp_data", k))
         lines.append("end")
@@ -92,7 +96,10 @@ def run(tier):
                 got = data[pos:pos + r] if r > 0 else b""
                 if r > 0:
                     pos += r
-                trace.append({"op": "getchunk", "kind": e["op"], "k": k, "fvalid": True, "want": len(exp), "ret": r, "eq": got == exp}); owner.append(cid)
+                if "shim_cap" in scripts[int(cid[1:])]:
+                    trace.append({"op": "getchunkcap", "kind": e["op"], "k": k, "want": len(exp), "ret": r, "prefixOk": got == exp[:len(got)]}); owner.append(cid)
+                else:
+                    trace.append({"op": "getchunk", "kind": e["op"], "k": k, "fvalid": True, "want": len(exp), "ret": r, "eq": got == exp}); owner.append(cid)
             elif e["op"] in ("Crash", "Hang"):
                 trace.append({"op": e["op"]}); owner.append(cid)
         ck.case((fname, tuple(seq)))
